@@ -595,7 +595,7 @@ class Firewall(Router, discriminator="firewall"):
                 )
         if "acl" in config:
             # acl rules for internal_inbound_acl
-            if config["acl"]["internal_inbound_acl"]:
+            if config["acl"].get("internal_inbound_acl"):
                 for r_num, r_cfg in config["acl"]["internal_inbound_acl"].items():
                     firewall.internal_inbound_acl.add_rule(
                         action=ACLAction[r_cfg["action"]],
@@ -610,7 +610,7 @@ class Firewall(Router, discriminator="firewall"):
                     )
 
             # acl rules for internal_outbound_acl
-            if config["acl"]["internal_outbound_acl"]:
+            if config["acl"].get("internal_outbound_acl"):
                 for r_num, r_cfg in config["acl"]["internal_outbound_acl"].items():
                     firewall.internal_outbound_acl.add_rule(
                         action=ACLAction[r_cfg["action"]],
@@ -625,7 +625,7 @@ class Firewall(Router, discriminator="firewall"):
                     )
 
             # acl rules for dmz_inbound_acl
-            if config["acl"]["dmz_inbound_acl"]:
+            if config["acl"].get("dmz_inbound_acl"):
                 for r_num, r_cfg in config["acl"]["dmz_inbound_acl"].items():
                     firewall.dmz_inbound_acl.add_rule(
                         action=ACLAction[r_cfg["action"]],
@@ -640,7 +640,7 @@ class Firewall(Router, discriminator="firewall"):
                     )
 
             # acl rules for dmz_outbound_acl
-            if config["acl"]["dmz_outbound_acl"]:
+            if config["acl"].get("dmz_outbound_acl"):
                 for r_num, r_cfg in config["acl"]["dmz_outbound_acl"].items():
                     firewall.dmz_outbound_acl.add_rule(
                         action=ACLAction[r_cfg["action"]],
